@@ -8,8 +8,9 @@ starts it with /venv/bin/python, its own PYTHONHASHSEED and PYTHONPATH=<GALLIA_S
 
 JOB = {"variant": {"name", "import_first": "server"|"commands", "clock_base": float,
                    "global_seed": int|None, "via_config": bool, "reverse": bool,
-                   "mutant": None|"global_rng"|"shared_model"|"memo_first",
-                   "crowd": None | {"name", plan...}},
+                   "mutant": None|"global_rng"|"shared_model"|"memo_first"|"registry_snapshot",
+                   "crowd": None | {"name", plan...},
+                   "vendor": None | {"group", "phase", "steps": [[stage, module], ...]}},
        "cases": [{"id", "seed", "params": {...RandomnessParameters...},
                   "behavior": {...Behavior...}, "hist": {"tour", "cap", "sa_segments", "sweep", "full_sweep"},
                   "pool": [{"seed", "params", "behavior"}, ...]}]}      (pool: only used by crowd variants)
@@ -18,6 +19,12 @@ Crowd variants ("process environments" in which the judged ECU is not the only o
 objects (case["pool"]: other seeds / other arguments / the same seed with other arguments / an exact twin) are
 created, set up and used in this interpreter before / between / after the judged server's construction, its
 setup() and its requests, as the plan says (see class Crowd).  Only the judged server is recorded.
+
+Vendor variants ("process environments" whose codec registry is not the stock one): modules of a synthetic vendor
+package (written by the parent into a directory on PYTHONPATH) define UDSService subclasses for ISO services gallia
+has no class for; gallia registers them like its own (UDSService.__init_subclass__).  variant["vendor"]["steps"]
+says at which stage each module is imported (see vendor_stage); what is registered when the first judged server is
+constructed / set up / at the end is reported next to the results (so that the parent can tell twins from non-twins).
 
 The child never judges anything: it dumps `server.services` after `setup()` and the
 transcript of `UDSServerTransport.handle_request` for a history that is a
@@ -153,7 +160,8 @@ def build_history(model: list[dict], hist: dict) -> list[list[tuple]]:
         # a tester that only keeps the session alive for a while (suppressed TesterPresent: nothing is answered)
         steps += [lit(b"\x3e\x80")] * 4 + [lit(b"\x22\xf1\x86")]
         block: list[tuple] = []
-        for v in sorted(by_s[s]["svcs"], key=lambda v: v["id"]):
+        first = list(hist.get("first", []))  # services whose blocks come first (the cap cuts the others)
+        for v in sorted(by_s[s]["svcs"], key=lambda v: (v["id"] not in first, v["id"])):
             if v["id"] != 0x27:
                 block += service_block(v["id"], v["hasSf"], list(v["sf"]))
         steps += block[:per_session_cap]
@@ -229,6 +237,34 @@ def neighbour_stream(model: list[dict]):  # noqa: ANN201
             yield b"\x31\x01\x12\x34"
             if s % 2 == 0:
                 yield b"\x11\x01"
+
+
+VENDOR_STAGES = ("pre", "post-core", "post-server", "pre-create", "post-create", "post-setup")
+
+
+def vendor_stage(variant: dict, stage: str) -> None:
+    """Imports the vendor modules the variant schedules for this stage:
+         "pre"          before any gallia module        "post-core"    after gallia.services.uds, before ...uds.server
+         "post-server"  after gallia.services.uds.server (and gallia.commands, if that came first)
+         "pre-create" / "post-create" / "post-setup"    right before the first judged server is constructed /
+                                                        between its construction and its setup() / after its setup()
+       Importing is idempotent: for a later case of the same interpreter the modules are simply there."""
+    import importlib
+
+    for st, mod in (variant.get("vendor") or {}).get("steps", []):
+        if st not in VENDOR_STAGES:
+            raise CrowdError(f"unknown vendor stage {st}")
+        if st == stage:
+            importlib.import_module(mod)
+
+
+def vendor_registered() -> list[int]:
+    """service ids whose registered class comes from a vendor module of the harness (observation for the parent's
+    twin check only)"""
+    from gallia.services.uds.core.service import UDSService
+
+    return sorted(int(k) for k, c in UDSService._SERVICES.items()
+                  if k is not None and c.__module__.startswith("c16_vendor_"))
 
 
 class CrowdError(BaseException):
@@ -394,6 +430,7 @@ async def run_case(S, case: dict, variant: dict) -> dict:  # noqa: ANN001
                                  S.UDSServer.Behavior(**spec["behavior"]))
 
     crowd = Crowd(build, case.get("pool", []), variant.get("crowd") or {}, S)
+    vendor = bool(variant.get("vendor"))
     nfresh = 0
 
     async def fresh():  # noqa: ANN202
@@ -401,12 +438,21 @@ async def run_case(S, case: dict, variant: dict) -> dict:  # noqa: ANN001
         first = nfresh == 0
         nfresh += 1
         await crowd.at("start" if first else "restart")
+        if first and vendor:
+            vendor_stage(variant, "pre-create")
+            out["vendor"] = {"at_create": vendor_registered()}
         server = build(case)
         await crowd.at("created" if first else "recreated")
+        if first and vendor:
+            vendor_stage(variant, "post-create")
+            out["vendor"]["at_setup"] = vendor_registered()
         if variant.get("global_seed") is not None:
             random.seed(variant["global_seed"] * 7919 + 1)
         await crowd.judged_setup(server, first)
         await crowd.at("ready" if first else "restarted")
+        if first and vendor:
+            vendor_stage(variant, "post-setup")
+            out["vendor"]["at_end"] = vendor_registered()
         return server
 
     try:
@@ -480,10 +526,43 @@ def main() -> None:
 
     if variant.get("global_seed") is not None:
         random.seed(variant["global_seed"])
+    vendor_stage(variant, "pre")
+    if any(st == "post-core" for st, _m in (variant.get("vendor") or {}).get("steps", [])):
+        # codecs and client; as found this does not import the server module (if an edition of gallia does, the stage
+        # coincides with post-server: still before the ECU is constructed, the twins stay twins)
+        import gallia.services.uds  # noqa: F401
+
+        vendor_stage(variant, "post-core")
     if variant.get("import_first") == "commands":
         import gallia.commands  # noqa: F401
         import gallia.commands.script.vecu  # noqa: F401
     import gallia.services.uds.server as S
+
+    if variant.get("mutant") == "registry_snapshot":
+        # binding self-test only (vendor family): a virtual ECU that sees the codec registry as it was when the server
+        # module was imported (while it is constructed and while it generates its model); classes registered later
+        # do not exist for it
+        from gallia.services.uds.core.service import UDSService as _U
+
+        _snapshot = dict(_U._SERVICES)
+
+        def _frozen(f):  # noqa: ANN001, ANN202
+            def g(self, *a, **kw):  # noqa: ANN001, ANN002, ANN003, ANN202
+                now = dict(_U._SERVICES)
+                _U._SERVICES.clear()
+                _U._SERVICES.update(_snapshot)
+                try:
+                    return f(self, *a, **kw)
+                finally:
+                    _U._SERVICES.clear()
+                    _U._SERVICES.update(now)
+
+            return g
+
+        S.RandomUDSServer.__init__ = _frozen(S.RandomUDSServer.__init__)  # type: ignore[method-assign]
+        S.RandomUDSServer.randomize = _frozen(S.RandomUDSServer.randomize)  # type: ignore[method-assign]
+
+    vendor_stage(variant, "post-server")
 
     if variant.get("mutant") == "global_rng":
         # binding self-test only: a generator that draws from the GLOBAL random module
